@@ -208,6 +208,32 @@ func runC01(p *core.Prog, r *core.Report, tier string) {
 		r.Floor("C01.i signature request sites", nReq, 2)
 	}
 
+	// ---- (j) the accounts asked to sign are the ones the filter let through: the account managers' by-index lookups
+	// report an account only for a requested index (an empty request yields nothing, not everything) ----
+	{
+		nBy := 0
+		for _, rel := range []string{"services/accountmanager/dirk", "services/accountmanager/wallet"} {
+			for _, f := range p.FuncsIn(rel) {
+				if !strings.Contains(f.Name(), "ByIndex") {
+					continue
+				}
+				core.EachInstr(f, func(in ssa.Instruction) {
+					mu, ok := in.(*ssa.MapUpdate)
+					if !ok {
+						return
+					}
+					mt, ok := mu.Map.Type().Underlying().(*types.Map)
+					if !ok || !strings.HasSuffix(mt.Key().String(), "phase0.ValidatorIndex") || !strings.HasSuffix(mt.Elem().String(), ".Account") {
+						return
+					}
+					nBy++
+					checkRequestedOnly(p, r, ds, "C01.j", core.RelPkg(f.Pkg.Pkg.Path())+"|"+core.FnKey(f)+"|result-entry", f, mu)
+				})
+			}
+		}
+		r.Floor("C01.j by-index account results", nBy, 2)
+	}
+
 	// the chain of functions from the sign site up to the entry (Attest)
 	chain := callChain(p, signFn, signSite.(ssa.Instruction), 4)
 	entry := chain[len(chain)-1]
